@@ -2,8 +2,11 @@
 """Generates /verif/checks.json (the registry the check driver reads). Edit here, run, commit both."""
 import json
 C = {}
+# harnesses whose property does not include race freedom and whose fakes cannot reproduce the timing natively
+NO_RACES = {"VerifC13_ReconnectResumes"}
 def ob(fn, pkg, what, qb="", tb=None, q=None, t=None, reach=("done",), termination=False, no_validate=False):
     o = {"fn": fn, "pkg": pkg, "what": what, "quick": dict(q or {}), "thorough": dict(t or {}), "reach": list(reach)}
+    if fn in NO_RACES: o["no_races"] = True
     o["quick"]["bounds"] = qb
     o["thorough"]["bounds"] = tb or qb
     if termination: o["termination"] = True
@@ -144,9 +147,11 @@ check("C13", "a replica applies the primary's log in order, exactly once", [
     ob("VerifC13_ApplyStepInductive", "pkg/replication", "one step of WALBatchApplier.ApplyEntries from an arbitrary cursor with an arbitrary batch and an apply function failing at a symbolic index", "<=3 entries per batch"),
     ob("VerifC13_DeliverySchedules", "pkg/replication", "a real Replica fed stream messages that are arbitrary sub-ranges of the primary log (duplicates, reordering, gaps, overlaps), optionally compressed, with one transient apply failure: applied history is always a prefix of the log, reported sequence monotone and never ahead, gaps answered by a retransmission request",
        "log of <=2 operations, <=2 messages, codecs NONE/ZSTD, failure at call 0..2", "log of <=3 operations, <=3 messages, codecs NONE/ZSTD/SNAPPY", t={"budget_s": 900}),
+    ob("VerifC13_ReconnectResumes", "pkg/replication", "the replica's own state handlers (connecting, streaming, waiting, fsync, acknowledging, error/back-off) driven tick by tick against a scripted primary whose stream delivers, stalls or is reset: applied history always a prefix in order, nothing twice; reported sequence monotone and never ahead; every new stream asks for the entry after the last applied",
+       "log of 2 entries, 3 stream scripts (DD, DRD, RDD), 8 ticks, every timer/receive interleaving at preemption bound 0 (322 k schedules)", "log of 3 entries, 10 scripts, 10 ticks (budget-capped)", q={"preempt": 0, "budget_s": 500}, t={"preempt": 0, "budget_s": 1200}, no_validate=True),
     ob("VerifC13_SerializeRoundTrip", "pkg/replication", "Deserialize(Serialize(e)) = e for put/delete/merge with key/value lengths 0-2 and arbitrary sequence numbers; a payload cut at any point is rejected or denotes the same operation",
        "key/value lengths 0..2, every cut position"),
-], [LOG, TIERA, "compression codecs: opaque pair Decompress(Compress(x)) = x, anything without the codec's frame magic is invalid"], ["codec internals", "gRPC framing", "the replica's timer-driven state machine (the data path is driven through processEntriesWithoutStateTransitions)"])
+], [LOG, TIERA, "compression codecs: opaque pair Decompress(Compress(x)) = x, anything without the codec's frame magic is invalid"], ["codec internals", "gRPC framing", "the replica's loop timing (sleep, back-off durations); gRPC status and metadata are engine stubs carrying code and message only; data races inside the replica's receive goroutines (observed, not reproducible natively with an instant fake stream, not part of C13)"])
 
 check("C14", "a connected replica converges (reduced form: data path under an ideal link)", [
     ob("VerifC14_DataPathConverges", "pkg/replication", "primary program (puts, deletes, a 2-entry batch, a flush) with a replica session joining before/between/after; real initial-send, push, poll and resend paths into a recording stream; messages fed in order to a real Replica applying through EngineApplier into a second engine with acks; link drained; probe key reads equal on both sides",
